@@ -23,7 +23,7 @@ mod pd;
 /// Thin contract over the library: every entry point is a one-line forward.
 mod libfw {
     use soroban_sdk::{contract, contractimpl, Address, Env, Symbol, Val, Vec};
-    use stellar_fee_abstraction::{collect_fee_and_invoke, set_allowed_fee_token, FeeAbstractionApproval};
+    use stellar_fee_abstraction::{collect_fee_and_invoke, set_allowed_fee_token, sweep_token, FeeAbstractionApproval};
 
     #[contract]
     pub struct LibForwarder;
@@ -53,6 +53,9 @@ mod libfw {
         }
         pub fn disallow(e: &Env, token: Address) {
             set_allowed_fee_token(e, &token, false);
+        }
+        pub fn sweep(e: &Env, token: Address, recipient: Address) -> i128 {
+            sweep_token(e, &token, &recipient)
         }
     }
 }
@@ -412,6 +415,7 @@ impl Sys {
         set_seq(e, seq(e) + n(op, "dt") as u32);
         let now = seq(e);
         let kind = s(op, "op");
+        let mut ret: Value = json!(0);
         let (res, code): (&'static str, i64) = match kind {
             "forward" => self.forward(op, now),
             "approve" => {
@@ -445,9 +449,39 @@ impl Sys {
                     }
                 }
             }
+            "sweep" => {
+                // (beyond C19, monitors X06_..): the forwarder's whole balance of `tok` paid out to the account named in `rel`
+                let tok = self.names.get(s(op, "tok"));
+                let to = self.names.get(s(op, "rel"));
+                let oauth = op.get("oauth").and_then(|v| v.as_bool()).unwrap_or(false);
+                match self.fl {
+                    Flavour::Permissionless => ("fail", -9), // the example has no such entry point
+                    Flavour::Permissioned => {
+                        let oper = self.names.get(s(op, "oper"));
+                        if oauth {
+                            set_auths(e, &[(oper.clone(), Inv::new(&self.fw, "sweep_tokens", args(e, (tok.clone(), to.clone(), oper.clone()))))]);
+                        } else {
+                            no_auth(e);
+                        }
+                        let r = pd::FeeForwarderClient::new(e, &self.fw).try_sweep_tokens(&tok, &to, &oper);
+                        if let Ok(Ok(v)) = &r {
+                            ret = small(*v);
+                        }
+                        res_of(&r)
+                    }
+                    Flavour::Lib => {
+                        no_auth(e);
+                        let r = libfw::LibForwarderClient::new(e, &self.fw).try_sweep(&tok, &to);
+                        if let Ok(Ok(v)) = &r {
+                            ret = small(*v);
+                        }
+                        res_of(&r)
+                    }
+                }
+            }
             k => panic!("op {k}"),
         };
-        json!({"op": op, "now": now, "res": res, "err": code, "obs": self.obs()})
+        json!({"op": op, "now": now, "res": res, "err": code, "ret": ret, "obs": self.obs()})
     }
 
     fn reset_event(&self) -> Value {
@@ -456,7 +490,7 @@ impl Sys {
                       "dt": 0, "tok": "none", "fee": 0, "max": 0, "de": 0, "user": "none", "rel": "none",
                       "rauth": false, "diff": "none", "tfn": "none", "tfail": false, "x": 0, "tgt": "none",
                       "oper": "none", "oauth": false},
-               "now": NOW0, "res": "ok", "err": 0, "obs": self.obs()})
+               "now": NOW0, "res": "ok", "err": 0, "ret": 0, "obs": self.obs()})
     }
 }
 
@@ -512,6 +546,7 @@ fn main() {
                         0..=4 => "forward",
                         5 | 6 => "approve",
                         7 | 8 if has_list => if r.gen_bool(0.55) { "allow" } else { "disallow" },
+                        9 if has_list && r.gen_bool(0.6) => "sweep",
                         _ => "forward",
                     };
                     let base = json!({"op": kind, "dt": dt, "tok": "t1", "fee": 0, "max": 0, "de": 0, "user": "none",
@@ -566,6 +601,15 @@ fn main() {
                             op["tfail"] = json!(r.gen_bool(0.08));
                             op["x"] = json!(r.gen_range(0..5));
                             op["tgt"] = json!(if r.gen_bool(0.85) { "tg1" } else { "tg2" });
+                        }
+                        "sweep" => {
+                            // mostly a token of which the forwarder holds something, by the manager
+                            let held: Vec<&str> = TOKS.iter().copied().filter(|t| last["bal"][*t]["fw"].as_i64().unwrap_or(0) > 0).collect();
+                            op["tok"] = json!(if !held.is_empty() && r.gen_bool(0.8) { *pick(&mut r, &held) } else { *pick(&mut r, &TOKS) });
+                            op["rel"] = json!(*pick(&mut r, &["r", "q", "u", "fw"]));
+                            let goodop = r.gen_bool(0.75);
+                            op["oper"] = json!(if goodop { "m" } else { *pick(&mut r, &["r", "ad", "u", "m"]) });
+                            op["oauth"] = json!(goodop || r.gen_bool(0.5));
                         }
                         "approve" => {
                             op["tok"] = json!(*pick(&mut r, &TOKS));
